@@ -14,7 +14,8 @@ ICfg == [ budget |-> 100000,     \* the application-level view: a read returns t
                       [name |-> <<75, 57>>,  type |-> "INT",  len |-> 1,  scalar |-> TRUE,  cia |-> <<2, 1, 9>>],
                       [name |-> <<75, 49, 48>>, type |-> "DINT", len |-> 2, scalar |-> FALSE, cia |-> <<2, 1, 10>>],
                       [name |-> <<75, 49, 49>>, type |-> "INT",  len |-> 2, scalar |-> FALSE, cia |-> <<2, 1, 11>>],
-                      [name |-> <<75, 49, 50>>, type |-> "SINT", len |-> 1, scalar |-> TRUE,  cia |-> <<2, 1, 12>>] >> ]
+                      [name |-> <<75, 49, 50>>, type |-> "SINT", len |-> 1, scalar |-> TRUE,  cia |-> <<2, 1, 12>>],
+                      [name |-> <<83>>,     type |-> "SSTRING", len |-> 2, scalar |-> FALSE, cia |-> <<2, 1, 13>>] >> ]
 Rq(svc, tag, idx, n, typ, vals) == [svc |-> svc, tag |-> tag, mode |-> "sym", idx |-> idx, n |-> n, off |-> 0, typ |-> typ,
                                     vals |-> vals, bytes |-> <<>>, ms |-> <<>>]
 Basis == { Rq("read", 1, 0, 3, "INT", <<>>), Rq("read", 1, 1, 1, "INT", <<>>), Rq("write", 1, 1, 2, "INT", << <<5, 0>>, <<255, 127>> >>), Rq("write", 1, 0, 1, "INT", << <<0, 128>> >>),
@@ -29,6 +30,8 @@ Basis == { Rq("read", 1, 0, 3, "INT", <<>>), Rq("read", 1, 1, 1, "INT", <<>>), R
                 Rq("write", 11, 0, 2, "INT", << <<11, 0>>, <<12, 0>> >>), Rq("read", 10, 0, 2, "DINT", <<>>), Rq("read", 11, 0, 2, "INT", <<>>),
                 Rq("write", 12, 0 - 1, 1, "SINT", << <<9>> >>), Rq("read", 9, 0 - 1, 1, "INT", <<>>),
                 Rq("read", 12, 0 - 1, 1, "SINT", <<>>), Rq("read", 5, 2, 1, "SINT", <<>>),           \* one-octet values: odd-sized replies inside a multi-read    \* more than ten auto-allocated tags
+                \* short strings of ISO-8859-1 characters, one with a high octet
+                Rq("write", 13, 0, 1, "SSTRING", << <<99, 97, 102, 233>> >>), Rq("read", 13, 0, 2, "SSTRING", <<>>), Rq("write", 13, 1, 1, "SSTRING", << <<97>> >>),
                 Rq("read", 1, 2, 3, "INT", <<>>),                          \* beyond the end
                 Rq("read", 1, 5, 1, "INT", <<>>),                          \* index beyond the end
                 Rq("read", 0, 0 - 1, 1, "INT", <<>>) }                     \* unknown tag
